@@ -9,10 +9,9 @@
 (*                                                                         *)
 (*   SelectTransport   Server.getTransport: first transport whose          *)
 (*                     Supports(r) holds                                   *)
-(*   ParseUrl          GET.Do: url.ParseQuery (runs BEFORE the headers     *)
-(*                     are written - see deviation D3)                     *)
 (*   Negotiate         determineResponseContentType + mergeHeaders +       *)
 (*                     writeHeaders (GET, POST) / writeHeaders(rh) (others)*)
+(*   ParseUrl          GET.Do: url.ParseQuery                              *)
 (*   Decode            body / URL parameters -> RawParams                  *)
 (*   CreateOpCtx       executor.CreateOperationContext: parse, validate,   *)
 (*                     Operations.ForName, VariableValues                  *)
@@ -22,7 +21,8 @@
 (*                                                                         *)
 (* Two levels.  The ACTIONS are written like the code behaves              *)
 (* (implementation level: the exact status / content type / body kind the  *)
-(* pinned tree produces, including three named deviations D1-D3).  The     *)
+(* tree produces; the three deviations D1-D3 found by this check were      *)
+(* repaired in /repo and the actions now describe the repaired code).  The *)
 (* PROPERTY is stated independently as a set of admissible answers         *)
 (* (`Rules`, `Bodies`, `Named`) that demands only what the C09 statement   *)
 (* demands; TLC checks that the implementation level satisfies the         *)
@@ -38,11 +38,12 @@ CONSTANTS
   Methods,   \* request methods
   ReqCTs,    \* request Content-Type classes
   Accepts,   \* set of Accept headers = sequences of media-range tokens
-  Docs       \* set of documents = sequences of [k |-> kind, n |-> name]
+  Docs,      \* set of documents = sequences of [k |-> kind, n |-> name]
+  Slip       \* "none", or a deviation of a Supports method (negative configurations only)
 
 VARIABLES
   srv,      \* the server (constant during a behaviour)
-  hdr,      \* [m, ct, acc, up] : header part of the request
+  hdr,      \* [m, ct, acc, up, carry] : header part of the request; carry = where the document travels
   dp,       \* [val, doc, opn]  : document part of the request
   src,      \* "inline" | "apq" : how the query text reaches the executor
   pc,       \* next step
@@ -53,7 +54,7 @@ VARIABLES
   executed, \* set of operation indices whose root fields were resolved
   cls,      \* outcome class
   out,      \* [st, ct, body] written by the code (implementation level)
-  dev       \* "" or the name of the deviation this behaviour runs into
+  dev       \* "" or the name of the deviation this behaviour runs into (none open on the repaired tree)
 
 vars == <<srv, hdr, dp, src, pc, tix, neg, dopn, sel, executed, cls, out, dev>>
 
@@ -94,21 +95,32 @@ DocParts ==
   \cup {[val |-> v, doc |-> <<>>, opn |-> o] : v \in {"parse", "noop"}, o \in {"", Unknown}}
   \cup {[val |-> v, doc |-> <<>>, opn |-> ""] : v \in {"undecEnv", "undecVars"}}
 
-Hdrs == [m : Methods, ct : ReqCTs, acc : Accepts, up : BOOLEAN]
+(* carry: where the request's document part travels.
+     "url"   URL parameters only, no body
+     "body"  the body only (encoded as the Content-Type class announces), no URL parameters
+     "both"  URL parameters carry the document part AND the body carries BodyProbe, an anonymous
+             mutation - so a transport that reads the wrong source runs something visible.
+   A POST carries its document in the body. *)
+Carries(m) == IF m = "POST" THEN {"body"} ELSE {"url", "body", "both"}
+Hdrs == {h \in [m : Methods, ct : ReqCTs, acc : Accepts, up : BOOLEAN, carry : {"url", "body", "both"}] :
+           h.carry \in Carries(h.m)}
+BodyProbe == [val |-> "ok", doc |-> <<[k |-> "mutation", n |-> ""]>>, opn |-> ""]
 
 (* No executing transport accepts a request that carries an Upgrade header or
    a method other than GET / POST (SelectTransport; the streaming transports
-   take POST only).  For those headers the document cannot influence the
-   answer, so the product keeps only the probe documents - one anonymous or
+   take POST only), and the GET transport never reads a body.  For those
+   headers (and for GET requests whose document is not in the URL alone) the
+   document cannot influence the answer, so the product keeps only the probe documents - one anonymous or
    single named operation of each kind, valid, no operationName - which is
    what would run if a Supports method wrongly let such a request in. *)
 ProbeParts == {p \in DocParts : p.val = "ok" /\ p.opn = "" /\ Len(p.doc) = 1}
-DocPartsFor(h) == IF h.up \/ h.m \notin {"GET", "POST"} THEN ProbeParts ELSE DocParts
+DocPartsFor(h) == IF h.up \/ h.m \notin {"GET", "POST"} \/ (h.m = "GET" /\ h.carry # "url")
+                  THEN ProbeParts ELSE DocParts
 
 (* The query text can be delivered by hash (automatic persisted query) only
    where the carrier has an `extensions` parameter. *)
 CanApq(h, d) == /\ d.val \notin {"undecEnv", "undecVars"}
-                /\ \/ h.m = "GET"
+                /\ \/ h.m = "GET" /\ h.carry \in {"url", "both"}
                    \/ h.m = "POST" /\ h.ct = "json"
 
 -----------------------------------------------------------------------------
@@ -121,8 +133,8 @@ PostWith(c) == hdr.m = "POST" /\ ParsedCT = c
 Supports(k) ==
   CASE k = "OPTIONS"   -> hdr.m \in {"HEAD", "OPTIONS"}
     [] k = "GET"       -> ~hdr.up /\ hdr.m = "GET"
-    [] k = "POST"      -> ~hdr.up /\ PostWith("json")
-    [] k = "GRAPHQL"   -> ~hdr.up /\ PostWith("graphql")
+    [] k = "POST"      -> ~hdr.up /\ (PostWith("json") \/ (Slip = "post-legacy-type" /\ ParsedCT = "other"))
+    [] k = "GRAPHQL"   -> ~hdr.up /\ (IF Slip = "graphql-no-method" THEN ParsedCT = "graphql" ELSE PostWith("graphql"))
     [] k = "FORM"      -> ~hdr.up /\ PostWith("form")
     [] k = "MULTIPART" -> ~hdr.up /\ PostWith("multipart")
     [] k = "SSE"       -> AccHas("sse") /\ PostWith("json")     \* no Upgrade test
@@ -135,6 +147,20 @@ FirstSupporting ==
 
 Kind == IF tix = 0 THEN "none" ELSE srv.ts[tix].k
 Rh   == IF tix = 0 THEN "none" ELSE srv.ts[tix].rh
+
+(* Decode source of the selected transport: GET.Do reads url.ParseQuery of
+   the URL, every other transport reads the body.  Eff is the document part
+   the selected transport gets to see: the request's own if it travels
+   there, BodyProbe in the body of a "both" request, nothing otherwise (an
+   empty query string is a document without operation; an empty body cannot
+   be decoded). *)
+DecodeSource(k) == IF k = "GET" THEN "url" ELSE "body"
+Eff ==
+  IF DecodeSource(Kind) = "url"
+  THEN (IF hdr.carry \in {"url", "both"} THEN dp ELSE [val |-> "noop", doc |-> <<>>, opn |-> ""])
+  ELSE CASE hdr.carry = "body" -> dp
+         [] hdr.carry = "both" -> BodyProbe
+         [] OTHER -> [val |-> "undecEnv", doc |-> <<>>, opn |-> ""]
 
 -----------------------------------------------------------------------------
 (* Negotiate *)
@@ -155,11 +181,11 @@ ImplNegotiate(rh, a) ==
   ELSE IF a = <<>> THEN "json" ELSE FirstRecognised(a, 1)
 
 (* writeHeaders(ResponseHeaders) of the transports that do not negotiate:
-   an empty map means application/json; a non-empty map is copied as is -
-   without a Content-Type entry none is set (D2) and net/http sniffs one *)
+   the map is copied as is; without a Content-Type entry application/json
+   is set (D2 repaired: 62f18b1; before, only an EMPTY map got the default
+   and net/http sniffed text/plain otherwise) *)
 ImplConfigured(rh) ==
-  IF rh = "none" THEN "json"
-  ELSE IF RhCT(rh) # "" THEN RhCT(rh) ELSE "sniffed"
+  IF RhCT(rh) # "" THEN RhCT(rh) ELSE "json"
 
 (* property level: the media types of a GraphQL response the Accept header
    admits; when it admits none of them (or is absent) the server may answer
@@ -202,12 +228,11 @@ ImplStatus(k, c, ct) ==
          ELSE 422                                                         \* statusFor
 
 ImplCT(k, c) ==
-  CASE c = "none"    -> "sniffed"                                         \* D1 (sniffed for HEAD too)
+  CASE c = "none"    -> "json"                                            \* sendError (D1 repaired: adec2da)
     [] c = "options" -> "absent"
     [] c = "ws"      -> "unmodelled"
     [] k = "SSE"     -> IF c = "undec" THEN "json" ELSE "sse"
     [] k = "MIXED"   -> IF c = "executed" THEN "mixed" ELSE "json"
-    [] k = "GET" /\ c = "undec" /\ dp.val = "undecEnv" -> "sniffed"       \* D3
     [] OTHER -> neg.impl
 
 ImplBody(k, c) ==
@@ -286,42 +311,34 @@ SelectTransport ==
   /\ tix' = FirstSupporting
   /\ LET k == IF tix' = 0 THEN "none" ELSE srv.ts[tix'].k IN
      /\ pc' = CASE k \in {"none", "OPTIONS", "WS"} -> "write"
-                [] k = "GET" -> "parseurl"
                 [] OTHER -> "negotiate"
      /\ cls' = CASE k = "none" -> "none" [] k = "OPTIONS" -> "options" [] k = "WS" -> "ws" [] OTHER -> ""
-     \* D1: Server.ServeHTTP answers "transport not supported" without a Content-Type
-     /\ dev' = IF k = "none" /\ hdr.m # "HEAD" THEN "no-transport-no-content-type" ELSE ""
+     /\ dev' = ""
   /\ UNCHANGED <<srv, hdr, dp, src, neg, dopn, sel, executed, out>>
 
-(* GET.Do starts with url.ParseQuery and answers a failure at once *)
+(* GET.Do: url.ParseQuery, after the headers were written (D3 repaired:
+   c2bb1a2; before, a failure was answered ahead of the headers) *)
 ParseUrl ==
   /\ pc = "parseurl"
-  /\ IF dp.val = "undecEnv"
-     THEN /\ pc' = "write" /\ cls' = "undec"
-          \* the property still demands the negotiated content type
-          /\ neg' = [impl |-> "sniffed", allowed |-> NegotiatedSet(Rh, hdr.acc)]
-          \* D3: the error is written before the headers
-          /\ dev' = "get-bad-url-query-no-content-type"
-     ELSE /\ pc' = "negotiate" /\ UNCHANGED <<cls, neg, dev>>
-  /\ UNCHANGED <<srv, hdr, dp, src, tix, dopn, sel, executed, out>>
+  /\ IF Eff.val = "undecEnv"
+     THEN pc' = "write" /\ cls' = "undec"
+     ELSE pc' = "decode" /\ cls' = cls
+  /\ UNCHANGED <<srv, hdr, dp, src, tix, neg, dopn, sel, executed, out, dev>>
 
 Negotiate ==
   /\ pc = "negotiate"
   /\ neg' = CASE Kind \in Negotiating -> [impl |-> ImplNegotiate(Rh, hdr.acc), allowed |-> NegotiatedSet(Rh, hdr.acc)]
               [] Kind \in Configured  -> [impl |-> ImplConfigured(Rh), allowed |-> ConfiguredSet(Rh)]
               [] OTHER                -> [impl |-> "json", allowed |-> {}]   \* SSE, MIXED: provisional application/json
-  \* D2: ResponseHeaders without a Content-Type entry on GRAPHQL / FORM / MULTIPART
-  /\ dev' = IF Kind \in Configured /\ ImplConfigured(Rh) = "sniffed"
-            THEN "response-headers-without-content-type" ELSE dev
-  /\ pc' = "decode"
-  /\ UNCHANGED <<srv, hdr, dp, src, tix, dopn, sel, executed, cls, out>>
+  /\ pc' = IF Kind = "GET" THEN "parseurl" ELSE "decode"
+  /\ UNCHANGED <<srv, hdr, dp, src, tix, dopn, sel, executed, cls, out, dev>>
 
 (* application/graphql bodies carry nothing but the query text *)
 Decode ==
   /\ pc = "decode"
-  /\ IF dp.val \in {"undecEnv", "undecVars"}
+  /\ IF Eff.val \in {"undecEnv", "undecVars"}
      THEN pc' = "write" /\ cls' = "undec" /\ dopn' = dopn
-     ELSE pc' = "create" /\ cls' = cls /\ dopn' = (IF Kind = "GRAPHQL" THEN "" ELSE dp.opn)
+     ELSE pc' = "create" /\ cls' = cls /\ dopn' = (IF Kind = "GRAPHQL" THEN "" ELSE Eff.opn)
   /\ UNCHANGED <<srv, hdr, dp, src, tix, neg, sel, executed, out, dev>>
 
 (* parse -> no operation -> validate -> ForName -> VariableValues; every
@@ -329,8 +346,8 @@ Decode ==
    errcode.KindProtocol *)
 CreateOpCtx ==
   /\ pc = "create"
-  /\ LET s == IF dp.val \in {"parse", "noop", "invalid"} THEN 0 ELSE ForName(dp.doc, dopn)
-         ok == s # 0 /\ dp.val = "ok"
+  /\ LET s == IF Eff.val \in {"parse", "noop", "invalid"} THEN 0 ELSE ForName(Eff.doc, dopn)
+         ok == s # 0 /\ Eff.val = "ok"
      IN /\ sel' = (IF ok THEN s ELSE 0)
         /\ pc' = (IF ok THEN (IF Kind = "GET" THEN "guard" ELSE "dispatch") ELSE "write")
         /\ cls' = (IF ok THEN cls ELSE "protoErr")
@@ -338,7 +355,7 @@ CreateOpCtx ==
 
 GuardGET ==
   /\ pc = "guard"
-  /\ IF dp.doc[sel].k # "query"
+  /\ IF Eff.doc[sel].k # "query"
      THEN pc' = "write" /\ cls' = "refused"
      ELSE pc' = "dispatch" /\ cls' = cls
   /\ UNCHANGED <<srv, hdr, dp, src, tix, neg, dopn, sel, executed, out, dev>>
@@ -369,12 +386,13 @@ Ok2xx(s) == 200 <= s /\ s <= 299
 TypeOK ==
   /\ pc \in {"select", "parseurl", "negotiate", "decode", "create", "guard", "dispatch", "write", "done"}
   /\ tix \in 0..Len(srv.ts)
-  /\ executed \subseteq 1..Len(dp.doc)
+  /\ executed \subseteq 1..Len(Eff.doc)
   /\ cls \in {"", "none", "options", "ws", "undec", "protoErr", "refused", "executed"}
 
-(* over GET only query operations are ever executed *)
+(* over GET only query operations are ever executed - whatever transport
+   answered and wherever it read the document from *)
 GetNeverMutates ==
-  \A i \in executed : hdr.m = "GET" => dp.doc[i].k = "query"
+  \A i \in executed : hdr.m = "GET" => Eff.doc[i].k = "query"
 
 (* a refused GET ran nothing *)
 RefusedRunsNothing ==
@@ -382,13 +400,13 @@ RefusedRunsNothing ==
 
 (* every transport executes exactly the operation the request names *)
 ExecutesNamedOperation ==
-  /\ \A i \in executed : i = Named(dp.doc, dopn) /\ dp.val = "ok"
-  /\ Done /\ cls = "executed" => executed = {Named(dp.doc, dopn)}
+  /\ \A i \in executed : i = Named(Eff.doc, dopn) /\ Eff.val = "ok"
+  /\ Done /\ cls = "executed" => executed = {Named(Eff.doc, dopn)}
 
 (* a GET selecting a mutation or subscription is refused *)
 GetNonQueryRefused ==
-  Done /\ Kind = "GET" /\ dp.val = "ok" /\ Named(dp.doc, dopn) # 0
-       /\ dp.doc[Named(dp.doc, dopn)].k # "query"
+  Done /\ Kind = "GET" /\ Eff.val = "ok" /\ Named(Eff.doc, dopn) # 0
+       /\ Eff.doc[Named(Eff.doc, dopn)].k # "query"
     => cls = "refused" /\ ~Ok2xx(out.st)
 
 (* no resolver has run for a request answered with a non-2xx status *)
@@ -424,6 +442,7 @@ Export ==
     PrintT(ToJson([
       sv |-> srv.id, m |-> hdr.m, ct |-> hdr.ct, acc |-> hdr.acc, up |-> hdr.up,
       val |-> dp.val, doc |-> dp.doc, opn |-> dp.opn, src |-> src,
+      carry |-> hdr.carry, esrc |-> DecodeSource(Kind), edoc |-> Eff.doc,
       tk |-> Kind, ti |-> tix, cls |-> cls,
       rules |-> Rules, bodies |-> Bodies, exec |-> executed,
       ist |-> out'.st, ict |-> out'.ct, ib |-> out'.body, dev |-> dev]))
